@@ -167,6 +167,20 @@ class Setup:
         self.cont = TraceDict({"k%d" % i: float(v) for i, v in enumerate(spec["x0"])})
         self.names = list(self.cont)
         self.act = Act()
+        # split_actions: one action object per target (each evaluates the model and returns only its own component), as
+        # when targets come from different computations of the user's model
+        class ActOne(xd.Action):
+            def __init__(self_inner, i):
+                self_inner.i = i
+
+            def run(self_inner):
+                outer.calls += 1
+                if outer.fault_at is not None and (outer.calls == outer.fault_at or
+                                                   (outer.persistent and outer.calls >= outer.fault_at)):
+                    raise InjectedActionFault("action fault at call %d" % outer.calls)
+                return {self_inner.i: f(np.array([outer.cont[nm] for nm in outer.names], dtype=float))[self_inner.i]}
+        split = bool(spec.get("split_actions"))
+        acts = [ActOne(i) for i in range(spec["m"])] if split else None
         n = spec["n"]
         wv = spec["wv"] if weights else [1.0] * n
         wt = spec["wt"] if weights else [1.0] * spec["m"]
@@ -174,7 +188,7 @@ class Setup:
                              weight=wv[i], tag="v%d" % i) for i, nm in enumerate(self.names)]
         self.cont.vary = {v.name: v for v in self.vary}
         optlog = spec.get("optlog") or [False] * spec["m"]
-        self.targets = [self.act.target(i, float(v), tol=spec["tol"][i], weight=wt[i], tag="t%d" % i,
+        self.targets = [(acts[i] if split else self.act).target(i, float(v), tol=spec["tol"][i], weight=wt[i], tag="t%d" % i,
                                         **({"optimize_log": True} if optlog[i] else {}))
                         for i, v in enumerate(spec["tars"])]
         self.opt = xd.Optimize(self.vary, self.targets, n_steps_max=spec["n_steps_max"], show_call_counter=False,
